@@ -235,3 +235,32 @@ Fixpoint chk_ops (s : sess) (h : list obs) : bool :=
 
 Definition chk_hist (c : plan * option api_data * list obs) : bool :=
   match c with (p, a0, h) => chk_ops (prepare p a0) h end.
+
+(* ------------------------------------------------------------------------------------------------------------
+   Execution modes (Model/Modes.v).  An operation's `inline` flag is inline_of its ParallelizationMode: SYNC runs a step
+   inside the loop; THREADING and MULTIPROCESSING hand it to a worker (thread / forked process) whose completion or failure
+   arrives later -- through step.step_is_done set by the thread, resp. through the result queue polled by
+   _process_step_result, which sets step_is_done on the RUN's plan copy -- as an event of the schedule `es`.  In both
+   asynchronous modes the flags land on the deep copy Engine.compute made for the run, never on the session's plan; the
+   api data goes to the run's own CfwManager (a local object in SYNC, an object in a manager process otherwise).  The
+   model therefore has no further mode-dependent state, and the theorems of Props/C07.v hold for any mix of modes. *)
+Require Import MV.Model.Modes.
+
+Definition run_in (m : pmode) (api : option api_data) (fails : list nat) (es : list event) : op :=
+  ORun api (inline_of m) fails es.
+Definition stream_in (m : pmode) (api : option api_data) (fails : list nat) (es : list event) (take : option nat) : op :=
+  OStream api (inline_of m) fails es take.
+
+(* the same operation carried out in another mode *)
+Definition set_mode (m : pmode) (o : op) : op :=
+  match o with
+  | ORun a _ f es => ORun a (inline_of m) f es
+  | OStream a _ f es t => OStream a (inline_of m) f es t
+  | OGet => OGet
+  end.
+(* a history whose i-th operation is carried out in mode ms[i] (operations beyond the list keep theirs) *)
+Fixpoint remode (ms : list pmode) (h : list op) : list op :=
+  match ms, h with
+  | m :: ms', o :: h' => set_mode m o :: remode ms' h'
+  | _, _ => h
+  end.
